@@ -28,7 +28,9 @@ ToDev(j, d) ==
      level |-> Get(j, "level", 0), inprog |-> Tup(Get(j, "inprog", <<>>)), ipb |-> Get(j, "ipb", 0),
      supplied |-> Get(j, "supplied", 0), budget |-> Get(j, "budget", cfg.devs[d].budget), cost |-> Get(j, "cost", 0),
      count |-> Get(j, "count", 0), collected |-> Tup(Get(j, "collected", <<>>)), revenue |-> Get(j, "revenue", 0),
-     value |-> j.value, nvh |-> j.nvh]
+     value |-> j.value, nvh |-> j.nvh,
+     damage |-> Get(j, "damage", 0), sdata |-> Tup(Get(j, "sdata", <<>>)), sn |-> Get(j, "sn", 0),
+     pdata |-> Tup(Get(j, "pdata", <<>>)), ptime |-> Tup(Get(j, "ptime", <<>>)), pn |-> Get(j, "pn", 0)]
 ToPart(p) == [hist |-> Tup(p.hist), gst |-> Tup(p.gst), value |-> p.value, quality |-> p.quality, batch |-> p.batch,
               leaves |-> Tup(p.leaves), seq |-> p.seq]
 ToEv(x, i) == [eid |-> i, time |-> x[1], prio |-> x[2], asset |-> x[3], kind |-> x[4], cancelled |-> x[5],
